@@ -117,3 +117,52 @@ def finish_proof(ck, rule, assumptions=()):
     ck.cov.pop("_distinct", None)
     ck.cov["trusted_base"] = wv.TRUSTED_BASE
     return ck.finish(level="proof", assumptions=assumptions, rule=rule)
+
+
+def xorb(a, b):
+    return bytes(x ^ y for x, y in zip(a, b))
+
+
+def feedback_streams(ck, specs, nblocks):
+    """Streams whose blocks are RELATED to what the same stream object saw or produced before (state kept across blocks - a cache
+    of the last block, a remembered key schedule, a shortcut for repeated input - only shows on such data; for unrelated data
+    the relation has probability 2^-128).  specs: list of (direction 'e'|'d', mode number, key16, iv20); every stream is built
+    block by block with the extracted SPEC (SP 800-38A / FIPS-197 in Coq): block j is chosen among: the previous output
+    block, the previous input block, output j-2, the zero block, the IV, and xor combinations of those (so that the block-cipher
+    INPUT inside a chained mode repeats, too).  Returns [(input bytes, spec output bytes, [relation names])]"""
+    r = ck.rng
+    mdrv = ck.model_driver()
+    ins = [b"" for _ in specs]
+    outs = [b"" for _ in specs]
+    rel = [[] for _ in specs]
+    for j in range(nblocks):
+        for s, (d, m, k, iv) in enumerate(specs):
+            blk = lambda x, t: x[16 * (j - t):16 * (j - t + 1)]
+            if j == 0:
+                b, nm = r.choice([(bytes(r.randrange(256) for _ in range(16)), "random"), (iv[:16], "iv"), (bytes(16), "zero")])
+            else:
+                pool = {"zero": bytes(16), "iv": iv[:16], "in-1": blk(ins[s], 1), "out-1": blk(outs[s], 1)}
+                if j >= 2:
+                    pool["in-2"] = blk(ins[s], 2)
+                    pool["out-2"] = blk(outs[s], 2)
+                c = r.randrange(8)
+                if c <= 1:
+                    nm = "out-1"
+                elif c == 2:
+                    nm = "in-1"
+                elif c == 3 and j >= 2:
+                    nm = r.choice(["out-2", "in-2"])
+                elif c == 4:
+                    nm = "zero"
+                else:
+                    nm = "^".join(sorted(r.sample(sorted(pool), r.choice([2, 2, 3]))))
+                b = bytes(16)
+                for part in nm.split("^"):
+                    b = xorb(b, pool[part])
+            ins[s] += b
+            rel[s].append(nm)
+        out = wv.run_lines([mdrv, "spec"], ["f%d mode %s %d %s %s %s" % (s, d, m, k.hex(), iv.hex(), ins[s].hex()) for s, (d, m, k, iv) in enumerate(specs)])
+        for s in range(len(specs)):
+            o = out.get("f%d" % s, "")
+            outs[s] = bytes.fromhex(o) if len(o) == 32 * (j + 1) else outs[s] + bytes(16)
+    return [(ins[s], outs[s], rel[s]) for s in range(len(specs))]
